@@ -97,6 +97,18 @@ func (r *Run) Violate(oracle, sigAttrs, format string, args ...any) {
 	r.viol = &Violation{Oracle: oracle, Sig: sig, Detail: fmt.Sprintf(format, args...)}
 }
 
+// NewScratchRun returns a recorder that is not reported anywhere: an engine can
+// evaluate an oracle on it to classify a situation without committing to a violation.
+func NewScratchRun(prop string) *Run { return newRun(prop) }
+
+// Violation returns the recorded violation's signature and detail ("" if none).
+func (r *Run) Violation() (sig, detail string) {
+	if r.viol == nil {
+		return "", ""
+	}
+	return r.viol.Sig, r.viol.Detail
+}
+
 // Failed reports whether a violation was recorded.
 func (r *Run) Failed() bool { return r.viol != nil }
 
